@@ -278,6 +278,120 @@ def r4_membership_flag(chk, prog):
     chk.require(n_writes >= 1 and mk >= 1, 'flag word writes %d, handler creations %d' % (n_writes, mk))
 
 
+class _Stop(Exception):
+    pass
+
+
+def r5_dispatch_table(chk, prog):
+    """each word is handled by exactly the member that defines its key - as if ONE handler owned all arguments: the
+    per-word part of Groups::evalArguments (the body of the loop over the command line) is evaluated abstractly
+    (Engine B) for two members and EVERY combination of what each of them holds for a long key (nothing / exactly
+    this key / one abbreviation match / several), with the members' lookups replaced by their contracts
+    (evalSingleArgument: handles the word when findArg() finds a match, 'unknown' otherwise, throws on an ambiguous
+    abbreviation - C05-R2/R5; findExactArg: exact match or null).  Expected (what a single handler does, C05): the
+    exact key wins wherever it is defined; otherwise one abbreviation match in total is used, none is an 'unknown
+    argument' exception, more than one is an exception."""
+    from ..boolshape import Interp, NeedAtom, Unsupported, Throw
+    import itertools
+    f = prog.one('celma::prog_args::Groups', 'evalArguments', pred=lambda f: len(f.params) == 2)
+    outer = [l for l in loops_in(f) if l.get('k') == 'ForStmt' and
+             any(True for c in walk(l) if c.get('k') in CALL_KINDS and callee_is(c, 'Handler::evalSingleArgument'))]
+    chk.require(len(outer) == 1, 'Groups::evalArguments: loop over the command line not found')
+    body = children(outer[0])[-1]
+    en = prog.enums.get('celma::prog_args::Handler::ArgResult')
+    chk.require(en is not None, 'enum Handler::ArgResult not found')
+    res_vals = {e['name']: e['val'] for e in en['enumerators']}
+    et = [e for q, e in prog.enums.items() if q.endswith('ArgListElement::Type')]
+    chk.require(et, 'enum ArgListElement::Type not found')
+    type_vals = {e['name']: e['val'] for e in et[0]['enumerators']}
+    STATES = ('none', 'exact', 'abbrev', 'ambiguous')
+    members = (100, 200)
+    n = 0
+    for combo in itertools.product(STATES, repeat=2):
+        if combo.count('exact') > 1:
+            continue                    # refused when the second one is defined (R3)
+        state = dict(zip(members, combo))
+        handled = []
+
+        def member_in(it, expr):
+            for x in walk(expr):
+                if x.get('k') == 'DeclRefExpr' and x.get('ref', {}).get('name') in it.locals:
+                    v = it.locals[x['ref']['name']]
+                    if v in members:
+                        return v
+            raise Unsupported('member handler not identifiable at line %s' % expr.get('l'))
+
+        def cb_eval(it, call):
+            m = member_in(it, children(call)[0])
+            st = state[m]
+            if st == 'none':
+                return res_vals['unknown']
+            if st == 'ambiguous':
+                raise Throw('ambiguous')
+            handled.append((m, st))
+            return res_vals['consumed']
+
+        def cb_find(it, call):
+            m = member_in(it, children(call)[0])
+            if not mentions_field(children(call)[0], 'mArguments'):
+                return 0                # the sub-group container of the member holds nothing for this key
+            st = state[m]
+            if st == 'ambiguous':
+                raise Throw('ambiguous')
+            return 0 if st == 'none' else m + (1 if st == 'exact' else 2)
+
+        def cb_exact(it, call):
+            m = member_in(it, children(call)[0])
+            if not mentions_field(children(call)[0], 'mArguments'):
+                return 0
+            return m + 1 if state[m] == 'exact' else 0
+
+        def cb_get(it, call):
+            return member_in(it, children(call)[0])
+
+        def cb_atom(it, key):
+            if key.endswith('.mElementType'):
+                return type_vals['stringArg']
+            if key.endswith('.mArgString') or key.endswith('.mValue'):
+                return 7
+            if key.endswith('.mArgChar'):
+                return 0
+            if key in ('usage_printed', 'this.mContinueAfterUsage'):
+                return 0
+            return None
+
+        cbs = {'evalSingleArgument': cb_eval, 'findArg': cb_find, 'findExactArg': cb_exact, 'get': cb_get,
+               'usagePrinted': lambda it, call: 0, '<range>': lambda it, rng: list(members), '<atom>': cb_atom,
+               'ArgumentKey': lambda it, call: 7, 'key': lambda it, call: 7}
+        it = Interp(f, {}, callbacks=cbs, prog=prog)      # helpers of Groups itself are inlined
+        try:
+            out = it.run(body)
+        except (NeedAtom, Unsupported) as e:
+            raise AnalysisBroken('Groups::evalArguments: the per-word dispatch is not interpretable for %s: %s' % (
+                combo, getattr(e, 'key', e)))
+        got = ('throw',) if out[0] == 'throw' else (('handled',) + tuple(handled) if handled else ('nothing',))
+        exact = [m for m in members if state[m] == 'exact']
+        nabbr = sum({'abbrev': 1, 'ambiguous': 2}.get(state[m], 0) for m in members)
+        if exact:
+            want = ('handled', (exact[0], 'exact'))
+        elif nabbr == 1:
+            want = ('handled', ([m for m in members if state[m] == 'abbrev'][0], 'abbrev'))
+        else:
+            want = ('throw',)
+        n += 1
+
+        def show(o):
+            if o[0] == 'throw':
+                return 'an exception'
+            if o[0] == 'nothing':
+                return 'the word is silently dropped'
+            return ' and '.join('member %d handles it (%s match)' % (m // 100, 'exact' if k == 'exact' else
+                                                                    'abbreviation') for m, k in o[1:])
+        chk.check(got == want, 'R5', f.name, 'long key over two members [member 1: %s, member 2: %s]: %s' % (
+            combo[0], combo[1], show(want)), f.loc(outer[0]), 'Groups::evalArguments: %s' % show(got))
+    chk.require(n >= 12, 'dispatch combinations evaluated: %d' % n)
+
+
 def run(chk):
     prog, units = rules.prog_args_program()
     chk.units = units
@@ -304,3 +418,5 @@ def run(chk):
     r3(chk, prog)
     chk.rule('R4', 'handlers created by Groups are marked as group members (hfInGroup is established and never cleared)', 3)
     r4_membership_flag(chk, prog)
+    chk.rule('R5', 'a long key is handled by the member a single handler would choose (exact key wins, abbreviation unique over all members)', 12)
+    r5_dispatch_table(chk, prog)
